@@ -105,7 +105,7 @@ def build_impl(flavor='asan'):
         fails = _parallel([
             link + ['-o', os.path.join(d, 'ninja'), os.path.join(d, 'obj', 'ninja.o')] + libobjs,
             link + ['-o', os.path.join(d, 'impl_run')] +
-                [os.path.join(d, 'obj', 'h_' + os.path.basename(s)[:-3] + '.o') for s in hsrc] + libobjs + ['-lpthread', '-lutil'],
+                [os.path.join(d, 'obj', 'h_' + os.path.basename(s)[:-3] + '.o') for s in hsrc] + libobjs + ['-lpthread', '-lutil', '-Wl,--wrap=fflush'],
         ])
         if fails:
             raise BuildError('link failed:\n' + '\n'.join(o[-3000:] for c, rc, o in fails))
